@@ -266,3 +266,191 @@ Proof.
   - split; [intros x []|split; [exact I | constructor]].
   - intros x d [].
 Qed.
+
+(* ================= the worklist of FragmentsGenerator.generate (F11 fix) ================= *)
+Lemma add_new_spec : forall cands names added names',
+  add_new cands names = (added, names') ->
+  names' = (names ++ added)%list /\ incl added cands /\ (forall c, In c cands -> In c names').
+Proof.
+  induction cands as [|c r IH]; intros names added names' H; simpl in H.
+  - inversion H; subst. split; [now rewrite app_nil_r|]. split; [apply incl_refl | intros c []].
+  - destruct (mem c names) eqn:M.
+    + destruct (IH _ _ _ H) as [E [Hi Hc]]. split; [exact E|]. split.
+      * intros x Hx. right. apply Hi. exact Hx.
+      * intros x [->|Hx]; [|apply Hc; exact Hx]. subst names'. apply in_or_app. left. apply mem_In. exact M.
+    + destruct (add_new r (names ++ [c])%list) as [a n'] eqn:E1. inversion H; subst.
+      destruct (IH _ _ _ E1) as [E [Hi Hc]]. split; [|split].
+      * rewrite E. rewrite <- app_assoc. reflexivity.
+      * intros x [->|Hx]; [left; reflexivity | right; apply Hi; exact Hx].
+      * intros x [->|Hx]; [|apply Hc; exact Hx]. rewrite E. apply in_or_app. left. apply in_or_app. right. left. reflexivity.
+Qed.
+
+Lemma work_spec tbl : forall fuel queue names done names' done',
+  work fuel tbl queue names done = Some (names', done') ->
+  (forall x, In x names <-> In x done \/ In x queue) ->
+  (forall n, In n done -> incl (D tbl n) names) ->
+  incl names names' /\ (forall x, In x names' <-> In x done') /\
+  (forall n, In n names' -> incl (D tbl n) names').
+Proof.
+  induction fuel as [|f IH]; intros queue names done names' done' H Hset Hcl.
+  - destruct queue as [|n q]; simpl in H; [|discriminate]. inversion H; subst.
+    split; [apply incl_refl|]. split.
+    + intro x. rewrite Hset. split; [intros [H1|[]]; exact H1 | intro H1; left; exact H1].
+    + intros n Hn. apply Hcl. apply Hset in Hn. destruct Hn as [Hn|[]]. exact Hn.
+  - destruct queue as [|n q]; simpl in H.
+    + inversion H; subst. split; [apply incl_refl|]. split.
+      * intro x. rewrite Hset. split; [intros [H1|[]]; exact H1 | intro H1; left; exact H1].
+      * intros n Hn. apply Hcl. apply Hset in Hn. destruct Hn as [Hn|[]]. exact Hn.
+    + destruct (add_new (sort_uniq (deps_of tbl n)) names) as [added names1] eqn:E.
+      destruct (add_new_spec _ _ _ _ E) as [E1 [Hi Hc]].
+      apply IH in H.
+      * destruct H as [H1 [H2 H3]]. split; [|split; assumption].
+        intros x Hx. apply H1. rewrite E1. apply in_or_app. left. exact Hx.
+      * intro x. rewrite E1. rewrite !in_app_iff. rewrite Hset. simpl. tauto.
+      * intros m Hm. apply in_app_or in Hm. destruct Hm as [Hm|[Hm|[]]].
+        -- intros d Hd. rewrite E1. apply in_or_app. left. apply (Hcl m Hm). exact Hd.
+        -- subst m. intros d Hd. apply Hc. exact Hd.
+Qed.
+
+(* every fragment some operation uses as a base class, every fragment nobody unpacks, and every mixin of
+   a fragment of the module (transitively) is in the module; the generated set = the name set *)
+Theorem fragment_present_lemma tbl names unp mix fuel names' done' :
+  let start := start_names names (exclude_of unp mix) in
+  work fuel tbl start start [] = Some (names', done') ->
+  (forall f, In f names -> In f mix -> In f names') /\
+  (forall f, In f names -> ~ In f unp -> In f names') /\
+  (forall n, In n names' -> forall d, In d (deps_of tbl n) -> In d names') /\
+  (forall x, In x names' <-> In x done').
+Proof.
+  intros start H. apply work_spec in H.
+  - destruct H as [H1 [H2 H3]].
+    assert (Hstart : forall f, In f names -> ~ In f (exclude_of unp mix) -> In f names').
+    { intros f Hf Hn. apply H1. unfold start, start_names.
+      apply (Permutation_in _ (Permutation_sym (isort_perm _))). apply filter_In. split.
+      - apply nodup_In. exact Hf.
+      - apply negb_true_iff. apply mem_false. exact Hn. }
+    split; [|split; [|split]].
+    + intros f Hf Hm. apply Hstart; [exact Hf|]. unfold exclude_of. intro Hx. apply filter_In in Hx.
+      destruct Hx as [_ Hx]. apply andb_true_iff in Hx. destruct Hx as [_ Hx]. apply negb_true_iff in Hx.
+      apply mem_false in Hx. contradiction.
+    + intros f Hf Hu. apply Hstart; [exact Hf|]. unfold exclude_of. intro Hx. apply filter_In in Hx.
+      destruct Hx as [Hx _]. apply nodup_In in Hx. contradiction.
+    + intros n Hn d Hd. apply (H3 n Hn). unfold D. apply sort_uniq_In. exact Hd.
+    + exact H2.
+  - intro x. simpl. tauto.
+  - intros n [].
+Qed.
+
+(* ================= mixin decision and bases ================= *)
+Lemma unpack_false sch fd root :
+  is_union sch (fr_on fd) = false -> fr_on fd = root -> existsb is_inline (fr_sel fd) = false ->
+  unpack_fragment sch fd (Some root) = false.
+Proof.
+  intros H1 H2 H3. unfold unpack_fragment. rewrite H1, H3. subst root. rewrite String.eqb_refl. reflexivity.
+Qed.
+
+Lemma resolve_direct_mixin sch frags fn fd : find_frag fn frags = Some fd ->
+  forall fuel ss root unp fields mix unp',
+  resolve fuel sch frags ss root unp = Some (fields, mix, unp') ->
+  In (SSpread fn) ss -> unpack_fragment sch fd (Some root) = false -> In fn mix.
+Proof.
+  intros Hf. induction fuel as [|f IH]; intros ss root unp fields mix unp' H Hin Hu; [discriminate|].
+  simpl in H. destruct ss as [|s rest]; [destruct Hin|].
+  match type of H with match ?r1 with _ => _ end = _ => destruct r1 as [[[f1 m1] u1]|] eqn:E1; [|discriminate] end.
+  destruct (resolve f sch frags rest root u1) as [[[f2 m2] u2]|] eqn:E2; [|discriminate].
+  inversion H; subst. apply in_or_app. destruct Hin as [->|Hin].
+  - left. rewrite Hf in E1. rewrite Hu in E1. simpl in E1. inversion E1; subst. left. reflexivity.
+  - right. eapply IH; eassumption.
+Qed.
+
+Lemma class_bases_extra mix extra x : In x extra -> In x (class_bases mix extra).
+Proof. intro H. unfold class_bases. apply in_or_app. right. exact H. Qed.
+
+Lemma class_bases_mixin mix extra fn : In fn mix -> In (pascal_s fn) (class_bases mix extra).
+Proof.
+  intro H. unfold class_bases. apply in_or_app. left. destruct mix as [|m r]; [destruct H|].
+  apply in_map. apply sort_uniq_In. exact H.
+Qed.
+
+Lemma class_bases_exact mix extra x : In x (class_bases mix extra) ->
+  In x extra \/ (mix = [] /\ x = base_model) \/ exists fn, In fn mix /\ x = pascal_s fn.
+Proof.
+  unfold class_bases. intro H. apply in_app_or in H. destruct H as [H|H]; [|left; exact H]. right.
+  destruct mix as [|m r].
+  - left. destruct H as [<-|[]]. split; reflexivity.
+  - right. apply in_map_iff in H. destruct H as [fn [E Hfn]]. exists fn. split; [|symmetry; exact E].
+    apply (proj1 (sort_uniq_In _ _)) in Hfn. exact Hfn.
+Qed.
+
+(* the first class ptd emits for (cn, tn, ss): its name, and its bases as a function of the resolved set *)
+Lemma ptd_head fuel sch frags snake cn tn ss extra s cs s' :
+  ptd fuel sch frags snake cn tn ss extra s = Some (cs, s') -> mem cn (st_public s) = false ->
+  exists f fields mix unp' rest, fuel = S f /\
+    resolve f sch frags ss tn (st_unp s) = Some (fields, mix, unp') /\
+    cs = {| c_name := cn; c_type := tn; c_bases := class_bases mix extra; c_frags := sort_uniq mix;
+            c_direct := direct_spreads ss |} :: rest.
+Proof.
+  intros H Hm. destruct fuel as [|f]; [discriminate|]. simpl in H. rewrite Hm in H.
+  destruct (resolve f sch frags ss tn (st_unp s)) as [[[fields mix] unp']|] eqn:E; [|discriminate].
+  match type of H with match ?g with _ => _ end = _ => destruct g as [[extras s2]|]; [|discriminate] end.
+  inversion H; subst. exists f, fields, mix, unp', extras. split; [reflexivity|]. split; [exact E | reflexivity].
+Qed.
+
+(* a fragment spread directly in the selection set, defined on exactly the evaluated type (not a union)
+   and without inline fragments, is a base of the class generated for that selection set *)
+Theorem mixin_instance_lemma fuel sch frags snake cn tn ss extra s cs s' fn fd :
+  ptd fuel sch frags snake cn tn ss extra s = Some (cs, s') -> mem cn (st_public s) = false ->
+  In (SSpread fn) ss -> find_frag fn frags = Some fd ->
+  is_union sch (fr_on fd) = false -> fr_on fd = tn -> existsb is_inline (fr_sel fd) = false ->
+  exists c rest, cs = c :: rest /\ c_name c = cn /\ c_type c = tn /\
+                 In (pascal_s fn) (c_bases c) /\ In fn (c_frags c).
+Proof.
+  intros H Hm Hin Hf H1 H2 H3.
+  destruct (ptd_head _ _ _ _ _ _ _ _ _ _ _ H Hm) as [f [fields [mix [unp' [rest [-> [E ->]]]]]]].
+  eexists; eexists. split; [reflexivity|]. simpl. split; [reflexivity|]. split; [reflexivity|].
+  assert (Hmix : In fn mix).
+  { eapply resolve_direct_mixin; [exact Hf | exact E | exact Hin | apply unpack_false; assumption]. }
+  split; [apply class_bases_mixin; exact Hmix | apply sort_uniq_In; exact Hmix].
+Qed.
+
+(* conversely: a base of a generated class is BaseModel, a @mixin import of exactly that field /
+   definition, or the class of a fragment the resolver returned as mixin *)
+Theorem mixin_bases_lemma fuel sch frags snake cn tn ss extra s cs s' :
+  ptd fuel sch frags snake cn tn ss extra s = Some (cs, s') -> mem cn (st_public s) = false ->
+  exists c rest, cs = c :: rest /\ c_name c = cn /\
+    (forall x, In x extra -> In x (c_bases c)) /\
+    (forall x, In x (c_bases c) ->
+       In x extra \/ (c_frags c = [] /\ x = base_model) \/ exists fn, In fn (c_frags c) /\ x = pascal_s fn).
+Proof.
+  intros H Hm.
+  destruct (ptd_head _ _ _ _ _ _ _ _ _ _ _ H Hm) as [f [fields [mix [unp' [rest [-> [E ->]]]]]]].
+  eexists; eexists. split; [reflexivity|]. simpl. split; [reflexivity|]. split.
+  - intros x Hx. apply class_bases_extra. exact Hx.
+  - intros x Hx. apply class_bases_exact in Hx. destruct Hx as [Hx|[[-> ->]|[fn [Hfn ->]]]].
+    + left. exact Hx.
+    + right. left. split; reflexivity.
+    + right. right. exists fn. split; [apply sort_uniq_In; exact Hfn | reflexivity].
+Qed.
+
+(* operation / fragment definitions: every @mixin(from:, import:) on the definition is imported and is a
+   base of exactly the class generated for the definition *)
+Theorem mixin_bases_def_lemma fuel sch frags snake (o : opdef) cs s' from imp :
+  gen_op fuel sch frags snake o = Some (cs, s') -> In (from, imp) (o_mixins o) ->
+  exists c rest, cs = c :: rest /\ c_name c = pascal_s (o_name o) /\ In imp (c_bases c).
+Proof.
+  unfold gen_op. intros H Hin.
+  destruct (mixin_bases_lemma _ _ _ _ _ _ _ _ _ _ _ H eq_refl) as [c [rest [-> [Hn [Hb _]]]]].
+  exists c, rest. split; [reflexivity|]. split; [exact Hn|]. apply Hb. unfold extra_bases.
+  apply (in_map snd _ (from, imp)). exact Hin.
+Qed.
+
+Theorem mixin_bases_frag_lemma fuel sch frags snake (fd : fragdef) cs s' from imp :
+  gen_frag fuel sch frags snake fd = Some (cs, s') -> unpack_fragment sch fd None = false ->
+  In (from, imp) (fr_mixins fd) ->
+  exists c rest, cs = c :: rest /\ c_name c = pascal_s (fr_name fd) /\ In imp (c_bases c).
+Proof.
+  unfold gen_frag. intros H Hu Hin. rewrite Hu in H.
+  destruct (mixin_bases_lemma _ _ _ _ _ _ _ _ _ _ _ H eq_refl) as [c [rest [-> [Hn [Hb _]]]]].
+  exists c, rest. split; [reflexivity|]. split; [exact Hn|]. apply Hb. unfold extra_bases.
+  apply (in_map snd _ (from, imp)). exact Hin.
+Qed.
